@@ -13,6 +13,17 @@ from graphslam.edge.edge_odometry import EdgeOdometry
 from graphslam.util import upper_triangular_matrix_to_full_matrix
 
 
+# Seam S7 hook: the World installs a callable here; user edges call it on entry to calc_error, so that the
+# simulator can let "something happen while user code runs" (Ctrl-C arriving, the user's own code raising).
+HOOK = [None]
+
+
+def _user_code_event():
+    h = HOOK[0]
+    if h is not None:
+        h()
+
+
 class PriorEdge(BaseEdge):
     """Unary edge with analytic Jacobian: err = (pose (-) estimate).to_compact()."""
 
@@ -22,6 +33,7 @@ class PriorEdge(BaseEdge):
         return self._is_valid() and len(self.vertices) == 1 and isinstance(self.estimate, type(self.vertices[0].pose))
 
     def calc_error(self):
+        _user_code_event()
         return (self.vertices[0].pose - self.estimate).to_compact()
 
     def calc_jacobians(self):
@@ -45,6 +57,7 @@ class DistanceEdge(BaseEdge):
         return self._is_valid() and len(self.vertices) == 2
 
     def calc_error(self):
+        _user_code_event()
         return np.array([np.linalg.norm((self.vertices[0].pose - self.vertices[1].pose).position) - self.estimate])
 
     def to_g2o(self):
@@ -70,6 +83,7 @@ class MidpointEdge(BaseEdge):
         return self._is_valid() and len(self.vertices) == 3
 
     def calc_error(self):
+        _user_code_event()
         p0, p1, p2 = (v.pose.position for v in self.vertices)
         return 0.5 * (p0 + p2) - p1 - self.estimate
 
@@ -113,4 +127,40 @@ class NumericLandmark(EdgeLandmark):
         return BaseEdge.calc_jacobians(self)
 
 
-CUSTOM_G2O_TYPES = [DistanceEdge, PointPriorXY]
+class VisualRange(DistanceEdge):
+    """Same edge as DistanceEdge under a tag that starts with 'V' (but is not a vertex tag)."""
+
+    KIND = "visual_range"
+
+    def to_g2o(self):
+        return "VISUAL_RANGE {} {} {} {}\n".format(self.vertex_ids[0], self.vertex_ids[1], self.estimate, self.information[0][0])
+
+    @classmethod
+    def from_g2o(cls, line, g2o_params_or_none=None):
+        if line.startswith("VISUAL_RANGE "):
+            numbers = line[len("VISUAL_RANGE "):].split()  # fmt: skip
+            arr = np.array([float(number) for number in numbers[2:]], dtype=np.float64)
+            return cls([int(numbers[0]), int(numbers[1])], np.array([[arr[1]]]), arr[0])
+        return None
+
+
+class PriorTagP(PointPriorXY):
+    """Same edge as PointPriorXY under a tag that starts with 'P' (but is not a parameter tag)."""
+
+    KIND = "prior_tag_p"
+
+    def to_g2o(self):
+        # fmt: off
+        return "PRIOR_XY {} {} {} ".format(self.vertex_ids[0], self.estimate[0], self.estimate[1]) + " ".join([str(x) for x in self.information[np.triu_indices(2, 0)]]) + "\n"
+        # fmt: on
+
+    @classmethod
+    def from_g2o(cls, line, g2o_params_or_none=None):
+        if line.startswith("PRIOR_XY "):
+            numbers = line[len("PRIOR_XY "):].split()  # fmt: skip
+            arr = np.array([float(number) for number in numbers[1:]], dtype=np.float64)
+            return cls([int(numbers[0])], upper_triangular_matrix_to_full_matrix(arr[2:], 2), arr[:2])
+        return None
+
+
+CUSTOM_G2O_TYPES = [DistanceEdge, PointPriorXY, VisualRange, PriorTagP]
